@@ -1,6 +1,6 @@
 (* Correspondence cases for C26: the driver ran the real recordstore.Path.Encode / Decode. *)
 From Coq Require Import List ZArith Bool.
-Require Import MTX.Lib.Civil MTX.Model.C26_RecPath.
+Require Import MTX.Lib.Civil MTX.Model.C26_RecPath MTX.Model.C26_Zone.
 Import ListNotations.
 Local Open Scope Z_scope.
 
@@ -14,21 +14,64 @@ Inductive case :=
      (empty when o = None) *)
 | Dec (loff : Z) (f v : list Z) (o : dres) (reenc : list Z)
   (* enc = Path{p, t}.Encode(f); o = Decode(f, enc) *)
-| Round (loff : Z) (f p : list Z) (unix ns off : Z) (enc : list Z) (o : dres).
+| Round (loff : Z) (f p : list Z) (unix ns off : Z) (enc : list Z) (o : dres)
+  (* time.Local = a real zone whose offset changes around the instant are shipped as a table (zf, ztx):
+     off = offset Go reports at unix, rep = "another instant shows the same wall-clock reading" (computed
+     by the driver from Go's ZoneBounds, independently of the table), applied = reading - time.Date(reading).Unix(),
+     enc = Encode, o = Decode(enc) *)
+| ZRound (zf : Z) (ztx : list (Z * Z)) (f p : list Z) (unix ns off : Z) (rep : bool) (applied : Z)
+         (enc : list Z) (o : dres)
+  (* Decode of a candidate name (mutations, readings inside a gap) in a real zone *)
+| ZDec (zf : Z) (ztx : list (Z * Z)) (f v : list Z) (o : dres) (reenc : list Z)
+  (* instants start, start+step, ... around a change: runs of (count, (off, decoded - unix, rep, recognised)) *)
+| ZSweep (zf : Z) (ztx : list (Z * Z)) (f p : list Z) (start step : Z) (runs : list (Z * (Z * Z * bool * bool)))
+  (* Go's offset function sampled over years: runs of (count, off) *)
+| ZScan (zf : Z) (ztx : list (Z * Z)) (start step : Z) (runs : list (Z * Z)).
 
 Definition dres_eqb (a b : dres) : bool :=
   match a, b with
   | None, None => true
-  | Some (p, u, n), Some (p', u', n') => bytes_eqb p p' && (u =? u') && (n =? n')
+  | Some (p, u, n), Some (p', u', n') => name_eqb p p' && (u =? u') && (n =? n')
   | _, _ => false
+  end.
+
+(* zone bound used by the driver: |offset| <= 16 h, changes more than 32 h apart *)
+Definition zB : Z := 57600.
+
+Fixpoint run_all (chk : Z -> bool) (u step : Z) (n : nat) : bool :=
+  match n with O => true | S k => chk u && run_all chk (u + step) step k end.
+
+Fixpoint sweep_all {A} (chk : A -> Z -> bool) (u step : Z) (runs : list (Z * A)) : bool :=
+  match runs with
+  | [] => true
+  | (cnt, a) :: r => run_all (chk a) u step (Z.to_nat cnt) && sweep_all chk (u + cnt * step) step r
   end.
 
 Definition mismatch (c : case) : bool :=
   match c with
-  | Enc f p unix ns off out => negb (bytes_eqb (encode_go f p (mkI unix ns off)) out)
+  | Enc f p unix ns off out => negb (name_eqb (encode_go f p (mkI unix ns off)) out)
   | Dec loff f v o _ => negb (dres_eqb (decode loff f v) o)
   | Round loff f p unix ns off enc o =>
-      negb (bytes_eqb (encode_go f p (mkI unix ns off)) enc && dres_eqb (decode loff f enc) o)
+      negb (name_eqb (encode_go f p (mkI unix ns off)) enc && dres_eqb (decode loff f enc) o)
+  | ZRound zf ztx f p unix ns off rep applied enc o =>
+      let z := mkZone zf ztx in
+      negb (zone_ok zB z && (offset_at z unix =? off) && Bool.eqb (in_repeat (lookup z) unix) rep
+            && (go_date_off z (unix + off) =? applied)
+            && name_eqb (encode_go f p (mkI unix ns off)) enc && dres_eqb (decode_zone z f enc) o)
+  | ZDec zf ztx f v o _ =>
+      let z := mkZone zf ztx in negb (zone_ok zB z && dres_eqb (decode_zone z f v) o)
+  | ZSweep zf ztx f p start step runs =>
+      let z := mkZone zf ztx in
+      let ts := tokenize f in
+      negb (zone_ok zB z &&
+            sweep_all (fun (a : Z * Z * bool * bool) u =>
+                         let '(off, delta, rep, ok) := a in
+                         (offset_at z u =? off) && Bool.eqb (in_repeat (lookup z) u) rep && ok
+                         && (decoded_unix (lz_of_zone z) ts (mkI u 0 off) =? u + delta))
+                      start step runs)
+  | ZScan zf ztx start step runs =>
+      let z := mkZone zf ztx in
+      negb (zone_ok zB z && sweep_all (fun off u => offset_at z u =? off) start step runs)
   end.
 
 (* The property on the observed outputs only:
@@ -38,12 +81,29 @@ Definition mismatch (c : case) : bool :=
 Definition round_guard (loff : Z) (f p : list Z) (t : instant) : bool :=
   let ts := tokenize f in wf_toks ts && name_ok p && identifies ts && encodable loff ts t.
 
+Definition zguard (f p : list Z) (t : instant) : bool :=
+  let ts := tokenize f in wf_toks ts && name_ok p && identifies ts && enc_ranges ts t.
+
 Definition spec_fail (c : case) : bool :=
   match c with
   | Enc _ _ _ _ _ _ => false
-  | Dec _ f v o reenc => match o with Some _ => negb (bytes_eqb reenc v) | None => false end
+  | Dec _ f v o reenc => match o with Some _ => negb (name_eqb reenc v) | None => false end
   | Round loff f p unix ns off enc o =>
       let t := mkI unix ns off in
       round_guard loff f p t &&
       negb (dres_eqb o (Some (p, fst (trunc_start (tokenize f) t), snd (trunc_start (tokenize f) t))))
+  | ZRound _ _ f p unix ns off _ _ _ o =>
+      (* full strength, every zone: the instant held in the local zone comes back (fails in a repeated hour
+         without %z / %s: known finding dst-repeated-hour) *)
+      let t := mkI unix ns off in
+      zguard f p t && negb (dres_eqb o (Some (p, unix, snd (trunc_start (tokenize f) t))))
+  | ZDec _ _ f v o reenc => match o with Some _ => negb (name_eqb reenc v) | None => false end
+  | ZSweep _ _ f p start step runs =>
+      (* every name is recognised; outside the repeated hours with the instant itself; inside one at most
+         one clock change away *)
+      zguard f p (mkI start 0 0) &&
+      negb (forallb (fun r : Z * (Z * Z * bool * bool) =>
+                       let '(_, (_, delta, rep, ok)) := r in
+                       ok && (Z.abs delta <=? 2 * zB) && (rep || (delta =? 0))) runs)
+  | ZScan _ _ _ _ _ => false
   end.
